@@ -10,7 +10,7 @@ from ..oracle.schema import parikh, schema
 from ..run import hyp_search, mix
 from .c01 import symbol_subset
 
-RULE = ('add-only histories in arbitrary order (add_child, add_child with forward, xml_* instance assignment): (a) ALL sequences of <=3 adds '
+RULE = ('add-only histories in arbitrary order (add_child, add_child with forward, xml_* instance assignment), also with read-only to_string() calls between the additions: (a) ALL sequences of <=3 adds '
         'over a deterministic 6-symbol subset of every type; (b) Hypothesis-drawn adaptive sequences (<=14 adds quick, '
         '<=30 thorough) where each next symbol is drawn from the oracle classes prefix / compatible / incompatible / '
         'foreign.  Oracle after every add that returned normally: completable(multiset of held names) on the '
@@ -56,7 +56,7 @@ def replay_case(rec):
 
 
 def nontrivial(run):
-    acc_adds = sum(1 for op, res in zip(run.ops, run.results) if res[0] == 'ok')
+    acc_adds = sum(1 for op, res in zip(run.ops, run.results) if res[0] == 'ok' and op[0] != 'to_string')
     return acc_adds >= 2 and 'offer-incompatible' in run.flags
 
 
@@ -75,14 +75,21 @@ def run_shard(ctx, shard, acc):
             syms = symbol_subset(t, 6 if ctx.quick else 8)
             dfa = s.dfa(t)
             for n in (1, 2, 3):
-                for combo in itertools.product(syms, repeat=n):
-                    ops = [['add', a] for a in combo]
+                for combo, read in itertools.product(itertools.product(syms, repeat=n), (False, True)):
+                    if read and n == 1:
+                        continue
+                    # variant: a read-only requirement check (to_string) between the additions
+                    ops = []
+                    for a in combo:
+                        ops.append(['add', a])
+                        if read:
+                            ops.append(['to_string', 0])
                     run, f = execute(els[0], ops)
                     if run.e is None:
                         break
                     # classify offers for the non-triviality rule
                     held = {}
-                    for a, res in zip(combo, run.results):
+                    for a, res in zip(combo, [r_ for o_, r_ in zip(run.ops, run.results) if o_[0] == 'add']):
                         h2 = dict(held)
                         h2[a] = h2.get(a, 0) + 1
                         if not dfa.completable(h2):
@@ -106,7 +113,11 @@ def run_shard(ctx, shard, acc):
         for _ in range(n):
             a, c = draw_symbol(data, run, {'prefix': 4, 'compatible': 5, 'incompatible': 4, 'foreign': 1})
             run.flags.add('offer-' + c)
-            z = data.draw(st.integers(0, 5))
+            z = data.draw(st.integers(0, 6))
+            if z == 6:
+                # a read between two additions: serialising (either mode) must not change what is accepted next
+                step(run, ['to_string', data.draw(st.integers(0, 1))])
+                run.flags.add('read-between-adds')
             if c != 'foreign' and z == 0 and a not in run.names():
                 op = ['dot_inst', a]
             elif c != 'foreign' and z == 1:
